@@ -7,8 +7,8 @@ STATUS: PARTIAL.  What is proved here, for traces of any length with any number 
       `C14_atomic_after_init_sound`, `C14_init_then_guarded_sound`, `C14_fork_publishes`);
   (1b) that the exclusive hold demanded for writes is necessary: under a shared (read-mode) hold two writers
       race (`C14_shared_hold_write_races_witness`) — the shape of a lazy initialisation in a read-locked getter;
-  (2) that the access sites of the watched shared fields (EVERY non-lock field of session, callCmd, socket,
-      SessionHub, peer and the protocol objects, plus plugin containers/counters), as REGENERATED from the Go source on every run
+  (2) that the access sites of the watched shared fields (EVERY non-lock field of session, its grace counter
+      type graceWaitGroup, callCmd, socket, SessionHub, peer and the protocol objects, plus plugin containers/counters), as REGENERATED from the Go source on every run
       (`Teleport.Gen.guards`), satisfy the discipline declared for their field in `Conc.guardOf`, except the
       sites listed in `Conc.knownRacy` (`C14_discipline_partial`), that those exceptions really violate it
       (`C14_known_racy_sites_violate`), and that the extraction was complete (`C14_extraction_complete`).
@@ -61,6 +61,33 @@ example : guardedb [⟨1, .wr 7⟩, ⟨2, .rd 7⟩] 7 0 = false := by decide
 
 /-- the concrete trace above is race free on location 7, by the theorem. -/
 example : RaceFree exTrace 7 := C14_lockset_sound exTrace 7 0 (guardedb_sound _ _ _ (by decide))
+
+/-- The session's grace counter (`graceWaitGroup` in session.go: counter `n` = location 10, channel field
+`zero` = location 11, mutex `mu` = lock 0, the channel itself = 5) used the way the library uses it, with `Add`
+concurrent with `Wait`: the read loop (thread 1) does `Add(1)`; the closer (thread 2) enters `Wait`, sees
+`n > 0`, creates the channel and blocks; the handler (thread 3) does `Done()`: `n` drops to zero, it closes the
+channel and clears the field; a pusher (thread 4) does `Add(1)` while the closer is still waking up; the closer
+receives from the closed channel, re-locks, sees `n > 0` again and goes back to waiting on a new channel; the
+pusher's `Done()` closes that one; the closer wakes, sees zero and returns. -/
+def exGrace : Trace :=
+  [⟨1, .acq 0⟩, ⟨1, .wr 10⟩, ⟨1, .rd 10⟩, ⟨1, .rel 0⟩,
+   ⟨2, .acq 0⟩, ⟨2, .rd 10⟩, ⟨2, .rd 11⟩, ⟨2, .wr 11⟩, ⟨2, .rd 11⟩, ⟨2, .rel 0⟩,
+   ⟨3, .acq 0⟩, ⟨3, .wr 10⟩, ⟨3, .rd 10⟩, ⟨3, .rd 11⟩, ⟨3, .chClose 5⟩, ⟨3, .wr 11⟩, ⟨3, .rel 0⟩,
+   ⟨4, .acq 0⟩, ⟨4, .wr 10⟩, ⟨4, .rd 10⟩, ⟨4, .rel 0⟩,
+   ⟨2, .chRecv 5⟩, ⟨2, .acq 0⟩, ⟨2, .rd 10⟩, ⟨2, .rd 11⟩, ⟨2, .wr 11⟩, ⟨2, .rd 11⟩, ⟨2, .rel 0⟩,
+   ⟨4, .acq 0⟩, ⟨4, .wr 10⟩, ⟨4, .rd 10⟩, ⟨4, .rd 11⟩, ⟨4, .chClose 6⟩, ⟨4, .wr 11⟩, ⟨4, .rel 0⟩,
+   ⟨2, .chRecv 6⟩, ⟨2, .acq 0⟩, ⟨2, .rd 10⟩, ⟨2, .rel 0⟩]
+
+/-- that execution is lock-well-formed, every access of the counter and of the channel field is made under the
+counter's mutex, so (by `C14_lockset_sound`) neither location has a data race although `Add` ran concurrently
+with `Wait`; it really contains conflicting accesses by different threads (the reader's `n += 1` and the
+closer's `n > 0`). -/
+example : LockWf 0 exGrace := by decide
+example : guardedb exGrace 10 0 = true ∧ guardedb exGrace 11 0 = true := by decide
+example : Conflict exGrace 10 1 5 := ⟨by decide, ⟨1, .wr 10⟩, ⟨2, .rd 10⟩, by decide⟩
+example : RaceFree exGrace 10 ∧ RaceFree exGrace 11 :=
+  ⟨C14_lockset_sound exGrace 10 0 (guardedb_sound _ _ _ (by decide)),
+   C14_lockset_sound exGrace 11 0 (guardedb_sound _ _ _ (by decide))⟩
 
 /-- A location that is accessed only through atomic operations has no data race: atomic accesses are not
 plain accesses, and a data race needs at least one plain access. -/
@@ -170,8 +197,8 @@ discipline, and satisfies it — except the sites listed in `knownRacy`, which a
 property by the harness.  Checked by evaluation over the regenerated table: a change of the code that drops a
 lock around an access, accesses an atomic field plainly, writes an init-only field after construction, or
 writes a callCmd field after `done()`, writes a field while holding its rw-guard only in shared mode
-(`RLock`), or adds a field to one of the watched structs (session, callCmd, socket, SessionHub, peer, the
-protocol objects: ALL their non-lock fields are watched) without declaring its discipline makes this theorem
+(`RLock`), or adds a field to one of the watched structs (session, graceWaitGroup, callCmd, socket, SessionHub,
+peer, the protocol objects: ALL their non-lock fields are watched; a `sync.WaitGroup` field's Add/Wait are W rows) without declaring its discipline makes this theorem
 fail to build.  PARTIAL: "satisfies" refers to the syntactic lock regions of the enclosing function. -/
 theorem C14_discipline_partial :
     sites.all (fun s => match guardOf s.field with
@@ -190,6 +217,17 @@ example : siteOk (.rw "socket.swapMutex" [] []) ⟨"socket.swap", "W", false, [(
 example : siteOk (.rw "socket.swapMutex" [] []) ⟨"socket.swap", "R", false, [("socket.swapMutex", "R")], "socket.SwapLen", "socket/socket.go"⟩ = true := by decide
 example : siteOk (.mutex "peer.mu" ["NewPeer"] []) ⟨"peer.listeners", "R", false, [("peer.mu", "R")], "peer.Close", "peer.go"⟩ = false := by decide
 example : siteOk (.initOnly ["NewPeer"]) ⟨"peer.network", "W", false, [("peer.mu", "W")], "peer.Dial", "peer.go"⟩ = false := by decide
+/-- the grace counters: a `sync.WaitGroup` in their place makes every `Add`/`Wait` a W row of the session field
+(extractor rule `guardWaitGroupPatterns`), which violates the field's discipline — with or without a lock around
+it; the rows of the current code (method calls on the in-place `graceWaitGroup` value = reads of the field; the
+counter's own fields under its mutex) are fine, and an access of the counter outside its mutex is not. -/
+example : (guardOf "session.graceCtxWaitGroup").map (siteOk · ⟨"session.graceCtxWaitGroup", "W", false, [], "session.startReadAndHandle", "session.go"⟩) = some false := by decide
+example : (guardOf "session.graceCtxWaitGroup").map (siteOk · ⟨"session.graceCtxWaitGroup", "W", false, [("session.graceCtxMutex", "W")], "session.graceCtxWait", "session.go"⟩) = some false := by decide
+example : (guardOf "session.graceCallCmdWaitGroup").map (siteOk · ⟨"session.graceCallCmdWaitGroup", "W", false, [], "session.AsyncCall", "session.go"⟩) = some false := by decide
+example : (guardOf "session.graceCtxWaitGroup").map (siteOk · ⟨"session.graceCtxWaitGroup", "R", false, [], "peer.getContext", "peer.go"⟩) = some true := by decide
+example : (guardOf "graceWaitGroup.n").map (siteOk · ⟨"graceWaitGroup.n", "W", false, [("graceWaitGroup.mu", "W")], "graceWaitGroup.Add", "session.go"⟩) = some true := by decide
+example : (guardOf "graceWaitGroup.n").map (siteOk · ⟨"graceWaitGroup.n", "R", false, [], "graceWaitGroup.Wait", "session.go"⟩) = some false := by decide
+example : (guardOf "graceWaitGroup.zero").map (siteOk · ⟨"graceWaitGroup.zero", "W", false, [], "graceWaitGroup.Add", "session.go"⟩) = some false := by decide
 
 /-- The exceptions are real: every `knownRacy` entry that still has a site in the current table violates the
 declared discipline there (so the list cannot silently hide sites that are fine, and an entry whose race was
@@ -215,6 +253,7 @@ theorem C14_watched_fields_present :
     (["session.status", "session.seq", "session.didCloseNotify", "session.sessionAge", "session.contextAge",
       "session.socket", "session.protoFuncs", "session.redialForClientLocked", "session.callCmdMap",
       "session.closeNotifyCh", "session.graceCtxWaitGroup", "session.graceCallCmdWaitGroup",
+      "graceWaitGroup.n", "graceWaitGroup.zero",
       "callCmd.stat", "callCmd.inputMeta", "callCmd.result", "callCmd.inputBodyCodec", "callCmd.cost",
       "socket.Conn", "socket.protocol", "socket.readerWithBuffer", "socket.id", "socket.swap", "socket.curState",
       "SessionHub.sessions", "peer.listeners", "peer.closeCh", "peer.tlsConfig",
